@@ -12,6 +12,7 @@ import (
 	"io"
 	"net"
 	"net/http"
+	"strings"
 	"sync"
 	"time"
 
@@ -470,4 +471,64 @@ func ParseKeyed(d *vfkit.Decoded) (rd []byte, tag string, serial uint32, ok bool
 		}
 	}
 	return nil, "", 0, false
+}
+
+// RichExtras returns authority and additional records that are a keyed function of the question name and cover every
+// record kind the proxy's codec has a dedicated (pooled) representation for: MX, SRV, SOA, NS/CNAME/PTR style single-name
+// records, A, AAAA and an opaque type. Every embedded name carries the question's labels, so a response whose extras
+// do not match its question is a mix-up (or a buffer shared between two live messages).
+func RichExtras(qname vfkit.Name) (ns, ar []vfkit.RR) {
+	if qname.WireLen() > 180 {
+		return nil, nil
+	}
+	low := qname.Lower()
+	hs := sha256.Sum256(append([]byte("extras|"), low.Wire()...))
+	h := hs[:]
+	if h[3]%4 == 0 {
+		return nil, nil
+	}
+	sub := func(l string) vfkit.Name { return append(vfkit.Name{[]byte(l)}, low...) }
+	nm := func(n vfkit.Name) vfkit.RDPart { return vfkit.RDPart{IsName: true, Name: n} }
+	raw := func(b ...byte) vfkit.RDPart { return vfkit.RDPart{Raw: b} }
+	soa := vfkit.RR{Owner: low, Type: 6, Class: 1, TTL: 3600, RData: []vfkit.RDPart{nm(sub("ns")), nm(sub("hostmaster")), raw(h[0], h[1], h[2], h[3], 0, 0, 14, 16, 0, 0, 7, 8, 0, 9, 58, 128, 0, 0, 1, 44)}}
+	mx := vfkit.RR{Owner: low, Type: 15, Class: 1, TTL: 3600, RData: []vfkit.RDPart{raw(0, h[0]), nm(sub("mx"))}}
+	srv := vfkit.RR{Owner: sub("_dns"), Type: 33, Class: 1, TTL: 3600, RData: []vfkit.RDPart{raw(0, 1, 0, 2, h[1], h[2]), nm(sub("srv"))}}
+	nsr := vfkit.RR{Owner: low, Type: 2, Class: 1, TTL: 3600, RData: []vfkit.RDPart{nm(sub("ns"))}}
+	ptr := vfkit.RR{Owner: sub("ptr"), Type: 12, Class: 1, TTL: 3600, RData: []vfkit.RDPart{nm(low)}}
+	a6 := vfkit.RR{Owner: sub("ns"), Type: 28, Class: 1, TTL: 3600, RData: []vfkit.RDPart{raw(append([]byte{0x20, 0x01, 0x0d, 0xb8}, h[:12]...)...)}}
+	opaque := vfkit.RR{Owner: sub("x"), Type: 65, Class: 1, TTL: 3600, RData: []vfkit.RDPart{raw(h[:9]...)}}
+	switch h[3] % 4 {
+	case 1:
+		return []vfkit.RR{soa}, []vfkit.RR{mx}
+	case 2:
+		return []vfkit.RR{nsr}, []vfkit.RR{srv, a6, opaque}
+	}
+	return []vfkit.RR{nsr, soa}, []vfkit.RR{mx, srv, ptr, a6, opaque}
+}
+
+// ExtrasMismatch compares the authority and additional (non OPT) records of a decoded response with RichExtras(qname);
+// it returns "" when they agree, case-insensitively.
+func ExtrasMismatch(d *vfkit.Decoded, qname vfkit.Name) string {
+	ns, ar := RichExtras(qname)
+	canon := func(rs []vfkit.RR) []string {
+		var out []string
+		for i := range rs {
+			if rs[i].Type == 41 {
+				continue
+			}
+			out = append(out, strings.ToLower(string(rs[i].Owner.Wire()))+fmt.Sprintf("/%d/%x", rs[i].Type, bytes.ToLower(rs[i].RDataWire())))
+		}
+		return out
+	}
+	for _, pair := range [][2][]string{{canon(ns), canon(d.Ns)}, {canon(ar), canon(d.Ar)}} {
+		if len(pair[0]) != len(pair[1]) {
+			return fmt.Sprintf("%d records where the upstream sent %d", len(pair[1]), len(pair[0]))
+		}
+		for i := range pair[0] {
+			if pair[0][i] != pair[1][i] {
+				return fmt.Sprintf("record %q where the upstream sent %q", pair[1][i], pair[0][i])
+			}
+		}
+	}
+	return ""
 }
